@@ -344,7 +344,6 @@ def bufSize (n : Nat) : Nat :=
 /-- whatever `buffer-size` says, the writers are built with a positive size of at least the minimum; a size above the
 minimum is taken as it is -/
 theorem bufSize_ok (n : Nat) : 0 < bufSize n ∧ bufferMinimalSize ≤ bufSize n ∧ (bufferMinimalSize < n → bufSize n = n) := by
-  have hmin : bufferMinimalSize = 4096 ∨ 0 < bufferMinimalSize := Or.inr (by decide)
   have hle : bufferMinimalSize ≤ bufferDefaultSize := by decide
   have hpos : 0 < bufferMinimalSize := by decide
   unfold bufSize
